@@ -554,6 +554,9 @@ class Interp:
             kw["serdes_payload"] = _x_serdes(self.serdes)
         if sd in ("result", "both"):
             kw["serdes_result"] = _x_serdes(self.serdes)
+        if st.get("fserdes"):
+            # the payload goes through a user SerDes around an external store that may fail (before anything is recorded)
+            kw["serdes_payload"] = _flaky_serdes(self.serdes, self.w, pos, st["fserdes"])
         if not kw and "timeout" not in st:
             return ctx.invoke(st.get("target", "fn-x"), mkvalue(st.get("payload", ["none"])), name=pos)  # no InvokeConfig
         cfg = C.InvokeConfig(timeout=C.Duration(seconds=st.get("timeout", 0)), **kw)
